@@ -1763,7 +1763,7 @@ class RawAlgorithmsMixIn:
 
 
         else:
-            cls._qr_rectangular(A_data, out = (Q_data, R_data))
+            cls._qr_rectangular(A_data, out = (Q_data, R_data), epsilon = epsilon)
 
     @classmethod
     def _qr_rectangular(cls,  A_data, out = None,  work = None, epsilon = 1e-14):
